@@ -297,4 +297,42 @@ theorem metadata_fields (o : TransformOpts) (rm : RM) (info md : Json) (pub unpu
 example : rfc3339 0 = "1970-01-01T00:00:00Z" ∧ rfc3339 1700000000 = "2023-11-14T22:13:20Z" ∧
     rfc3339 951782400 = "2000-02-29T00:00:00Z" := by decide
 
+
+/-- **the method metadata**: the `published` flag as given; the state's recovery and update
+    commitments, each present exactly when non-empty; the state's anchor origin; the operation
+    lists exactly when asked for and non-empty, in anchoring order (published ones de-duplicated) -/
+theorem metadata_method_fields (o : TransformOpts) (rm : RM) (info md : Json) (pub unpub : List OpRef)
+    (h : metadata o rm info pub unpub = some md) :
+    ∃ published method, info.get? "published" = some (.bool published) ∧ md.get? "method" = some method ∧
+      method.get? "published" = some (.bool published) ∧
+      method.get? "recoveryCommitment" = (if rm.recoveryCommitment = "" then none else some (.str rm.recoveryCommitment)) ∧
+      method.get? "updateCommitment" = (if rm.updateCommitment = "" then none else some (.str rm.updateCommitment)) ∧
+      method.get? "anchorOrigin" = rm.anchorOrigin ∧
+      method.get? "unpublishedOperations" =
+        (if o.includeUnpublished ∧ !unpub.isEmpty then some (.arr ((unpublishedOps unpub).map (opRefJson false))) else none) ∧
+      method.get? "publishedOperations" =
+        (if o.includePublished ∧ !pub.isEmpty then some (.arr ((publishedOps pub).map (opRefJson true))) else none) := by
+  unfold metadata at h
+  cases hd : rm.doc with
+  | none => simp [hd] at h
+  | some d =>
+    cases hp : info.get? "published" with
+    | none => simp [hd, hp] at h
+    | some pj =>
+      cases pj with
+      | bool published =>
+        simp only [hd, hp, Option.some.injEq] at h
+        subst h
+        refine ⟨published, _, rfl, by simp only [Json.get?, Json.lookup, List.cons_append, List.nil_append, if_true]; rfl, ?_⟩
+        by_cases h1 : rm.recoveryCommitment = "" <;> by_cases h2 : rm.updateCommitment = "" <;>
+          cases h3 : rm.anchorOrigin <;>
+          by_cases h4 : (o.includeUnpublished = true ∧ ¬ unpub = []) <;>
+          by_cases h5 : (o.includePublished = true ∧ ¬ pub = []) <;>
+          simp [Json.get?, Json.lookup, h1, h2, h3, h4, h5]
+      | null => simp [hd, hp] at h
+      | num n => simp [hd, hp] at h
+      | str s => simp [hd, hp] at h
+      | arr a => simp [hd, hp] at h
+      | obj ob => simp [hd, hp] at h
+
 end Sidetree.Props.C18
